@@ -30,11 +30,15 @@ def showOptF : Option Float → String
   | some x => fbits x
   | none => "-"
 
+def showOptI : Option Int → String
+  | some x => toString x
+  | none => "-"
+
 def showSnapshot (rep : Rep Float) : String :=
   let flags := hasModRows.map (fun row => s!"{row.1}:{showB (rep.flag row)}")
   s!"cr={fbits (rep.clockRate numF)} mult={fbits (rep.mult numF)} hro={showB rep.hardrockOffsets} " ++
   s!"nshl={showB (rep.noSliderHeadAcc true)} nshs={showB (rep.noSliderHeadAcc false)} " ++
-  s!"refl={showRefl rep.reflection} keys={showOptF (rep.maniaKeys.map (·.f))} scroll=- seed=- " ++
+  s!"refl={showRefl rep.reflection} keys={showOptF (rep.maniaKeys.map (·.f))} scroll={showOptF rep.scrollSpeed} seed={showOptI rep.randomSeed} " ++
   s!"ar={showOptF rep.ar} cs={showOptF rep.cs} hp={showOptF rep.hp} od={showOptF rep.od} " ++
   s!"flags={joinWith "," flags}"
 
@@ -75,5 +79,60 @@ def handleGcr (mode bits kind speed clock : String) : String :=
   let l1 := if kind == "-" then l0 else insertL { kind := rateKind kind, speed := parseOptFloat speed } l0
   let d : Diff Float := { mods := .lazer md l1, clockRate := parseOptFloat clock }
   "gcr=" ++ fbits (d.getClockRate numF)
+
+/-! ### lazer mods with settings (`LZS`) -/
+
+def parseOptBool (s : String) : Option Bool :=
+  if s == "1" then some true else if s == "0" then some false else none
+
+/-- the mod with the given acronym (`GameModIntermode::from_acronym`), `Unknown` otherwise -/
+def imodOfAcronym (a : String) : IMod :=
+  (orderAll.find? (fun m => m.acronym == a)).getD .Unknown
+
+/-- one tag of an `LZS` request:
+* `A.<acronym>`            a mod with default settings (as `GameMod::new(acronym, mode)`)
+* `CL.<u|0|1>`             `ClassicOsu { no_slider_head_accuracy }`
+* `MR.u` / `MR.s<text>`    `MirrorOsu { reflection: None / Some(text) }`
+* `DA.<u|0|1>.<-|f64 bits>` `DifficultyAdjust{Catch { hard_rock_offsets }, Taiko { scroll_speed }}`
+* `RD.<u|integer>`         `Random{Taiko,Mania} { seed }` -/
+def parseTag (t : String) : Option (LMod Float) :=
+  match t.splitOn "." with
+  | ["A", a] => let k := imodOfAcronym a; if k == .Unknown then none else some { kind := k }
+  | ["CL", v] => some { kind := .Classic, nsha := parseOptBool v }
+  | ["MR", v] =>
+    if v == "u" then some { kind := .Mirror }
+    else some { kind := .Mirror, mirror := some (String.ofList (v.toList.drop 1)) }
+  | ["DA", h, sc] => some { kind := .DifficultyAdjust, hro := parseOptBool h, scroll := parseOptFloat sc }
+  | ["RD", v] => some { kind := .Random, seed := if v == "u" then none else v.toInt? }
+  | _ => none
+
+/-- `LZS <mode> <bits> <tags|-> <hardrock_offsets|-> <lazer|->`: the lazer mods of `bits` (default
+settings) plus the tagged mods (comma separated, inserted in the order given); then a `Difficulty`
+with the two optional setters.  Reports every accessor and the `Difficulty` getters. -/
+def handleLzs (mode bits tags hro lz : String) : String :=
+  let md := parseMode mode
+  let l0 : List (LMod Float) := withMode md (fromBits (nat! bits))
+  let ts := if tags == "-" then [] else tags.splitOn ","
+  let l := ts.foldl (fun acc t => match parseTag t with
+    | some m => insertL m acc
+    | none => acc) l0
+  let d : Diff Float :=
+    { mods := .lazer md l, clockRate := none, hardrockOffsets := parseOptBool hro, lazer := parseOptBool lz }
+  showSnapshot d.mods ++
+    s!" | ghro={showB d.getHardrockOffsets} glazer={showB d.getLazer} ucsa={showB d.usingClassicSliderAcc} " ++
+    s!"mclassic={showB d.maniaClassic}"
+
+/-- `IMS <ref|own> <acronyms|->`: an intermode set given by acronyms, owned or through
+`From<&GameModsIntermode>` (`checked_bits`) -/
+def handleIms (how acrs : String) : String :=
+  let s := (if acrs == "-" then [] else acrs.splitOn ",").map imodOfAcronym
+  let rep : Rep Float :=
+    if how == "ref" then
+      match checkedBits s with
+      | some b => .legacy (legacyFromBits b)
+      | none => .intermode s
+    else .intermode s
+  let tag := match rep with | .legacy _ => "legacy" | .intermode _ => "intermode" | .lazer .. => "lazer"
+  s!"rep={tag} " ++ showSnapshot rep
 
 end Rosu.Mods
